@@ -26,7 +26,7 @@ class Hang(Exception):
 class time_limit:
     """SIGALRM guard: the receive loops are pure Python, so a runaway loop is interrupted."""
 
-    def __init__(self, seconds=20):
+    def __init__(self, seconds=4):
         self.seconds = seconds
 
     def _fire(self, *_):
@@ -974,7 +974,7 @@ def judge(ctx, case, coq):
     declog_all = []
     nseg = 0
     key = "C02:%s:" % KEYNAME[conn]
-    reported = set()
+    hung = False
     worst = {}
     for cuts in enum_segs(n, plan):
         o, after, declog = run_seg(case, cuts)
@@ -994,10 +994,11 @@ def judge(ctx, case, coq):
                                   % (case["what"], got, case["expect"], len(left) // 2), replay_of(case, []))
         groups.setdefault(json.dumps(o, sort_keys=True), (o, []))[1].append(cuts)
         if o["raised"] == "HANG" or (after and after.get("raised") == "HANG"):
-            if "hang" not in reported:
-                reported.add("hang")
-                ctx.violation(key + "hangs", "data_received does not return", replay_of(case, cuts))
-            continue
+            # a receive loop that does not return: report once and leave this stream (every further
+            # segmentation would cost another time-out)
+            ctx.violation(key + "hangs", "data_received does not return (%s) cut at %s" % (case["what"], cuts), replay_of(case, cuts))
+            hung = True
+            break
         if not case["valid"]:
             continue
         # ---- the property, judged on the implementation
@@ -1029,6 +1030,8 @@ def judge(ctx, case, coq):
     ctx.evaluations += nseg - 1
     if big:
         ctx.count("big-frames(implementation side only)")
+        return nseg
+    if hung:
         return nseg
     if not case["domain"]:
         return nseg
